@@ -18,9 +18,12 @@ Tie, three independent legs (all on the REAL code from /repo):
      Model/PgLex.lean (my transcription of the PostgreSQL documentation, trusted)
      executed by the Lean driver on the real outputs.
 
-Known-false regions are reported with ONE stable key per defect family and the
-minimal witness in the detail; an oracle failure outside these regions is a new
-violation keyed by the input.
+One known-false region is left on the current tree (`quote_e_literal` does not
+escape backslashes; dead code): it is reported with ONE stable key
+(`pg-eliteral-backslash:quote_e_literal`) and the minimal witness in the detail.
+Every other oracle failure is a violation keyed by the function and the input —
+in particular a reappearance of the defects repaired by 269eaeb / 6e967b8 /
+1c83ec0 / 878e057 (see notes/C18.known_findings.json).
 """
 from __future__ import annotations
 
@@ -35,13 +38,11 @@ from lib import core, rustlex
 
 PROPS = 'EdbVerif/Props/C18.lean'
 REQUIRED = [
-    'EdbVerif.C18.edgeql_str_partial', 'EdbVerif.C18.edgeql_str_counterexample',
-    'EdbVerif.C18.edgeql_dollar_partial', 'EdbVerif.C18.edgeql_dollar_counterexample',
-    'EdbVerif.C18.edgeql_const_partial', 'EdbVerif.C18.edgeql_const_counterexample_dollar',
-    'EdbVerif.C18.edgeql_const_counterexample_c1', 'EdbVerif.C18.edgeql_const_counterexample_bidi',
-    'EdbVerif.C18.edgeql_bytes_partial', 'EdbVerif.C18.edgeql_bytes_counterexample',
-    'EdbVerif.C18.edgeql_ident_partial', 'EdbVerif.C18.edgeql_ident_forced',
-    'EdbVerif.C18.edgeql_ident_counterexample',
+    'EdbVerif.C18.edgeql_str', 'EdbVerif.C18.edgeql_dollar', 'EdbVerif.C18.edgeql_dollar_tag',
+    'EdbVerif.C18.edgeql_const', 'EdbVerif.C18.edgeql_bytes',
+    'EdbVerif.C18.edgeql_ident', 'EdbVerif.C18.edgeql_ident_forced',
+    'EdbVerif.C18.edgeql_str_single', 'EdbVerif.C18.edgeql_dollar_single',
+    'EdbVerif.C18.edgeql_const_single', 'EdbVerif.C18.edgeql_bytes_single',
     'EdbVerif.C18.pg_literal', 'EdbVerif.C18.pg_ident', 'EdbVerif.C18.pg_bytea',
     'EdbVerif.C18.pg_eliteral_partial', 'EdbVerif.C18.pg_eliteral_counterexample',
 ]
@@ -302,6 +303,12 @@ def run(ctx: core.Ctx):
     rng = ctx.rng
     fam = Families()
     hist: dict[str, int] = {}
+    viols: dict[str, list] = {}     # function -> [(len, input bytes, what, detail)]
+
+    def viol(name, sb, what, detail):
+        """an oracle failure on the real code: a violation keyed by function + input; at most
+        the 20 shortest inputs per function are written out (the count goes into the detail)"""
+        viols.setdefault(name, []).append((len(sb), sb, what, detail))
 
     def bump(k, n=1):
         hist[k] = hist.get(k, 0) + n
@@ -496,7 +503,7 @@ def run(ctx: core.Ctx):
             'U ralpha ' + hx(''.join(ralpha)), 'U ralnum ' + hx(''.join(ralnum)),
             'U pyalnum ' + hx(''.join(c for c in nonascii if c.isalnum())),
             'U pydecimal ' + hx(''.join(c for c in nonascii if c.isdecimal())),
-            'U pyprintable ' + hx(''.join(c for c in nonascii if c.isprintable())),
+            'U pyalpha ' + hx(''.join(c for c in nonascii if c.isalpha())),
         ]
 
         # ------------------------------------------------ the real tokenizer
@@ -607,23 +614,16 @@ def run(ctx: core.Ctx):
         for s in S:
             plain_res.setdefault(s, rustlex.LexResult([], 'not lexed: number-shaped'))
 
-        def py_printable(c):
-            return c.isprintable()
-
         def classify_const(s, out):
             """which branch visit_Constant took, from its output"""
             if any(ord(c) <= 8 or ord(c) in (0xB, 0xC, 0x7F, 10) or 0xE <= ord(c) <= 0x1F or 0x80 <= ord(c) <= 0x9F
-                   for c in s):
-                return 'repr'
+                   or ord(c) in BIDI for c in s):
+                return 'escaped'
             if out.startswith('r'):
                 return 'raw'
             if out.startswith('$'):
                 return 'dollar'
             return 'plain'
-
-        def dollar_tag(out):
-            m = re.match(r'\$[0-9a-f]*\$', out)
-            return m.group(0) if m else None
 
         for s, outs in zip(S, real_q):
             sb = s.encode()
@@ -647,28 +647,8 @@ def run(ctx: core.Ctx):
                 r = rust_of.get(o)
                 extra = {'tokenizer_error': r.error if r else None,
                          'tokens': [(t.kind, t.value.decode('utf-8', 'replace')) for t in (r.toks if r else [])][:4]}
-                branch = classify_const(s, o) if name == 'visit_Constant' else None
-                tag = dollar_tag(o) if isinstance(o, str) else None
-                if name in ('dollar_quote_literal', 'visit_Constant') and (branch in (None, 'dollar')) and tag \
-                        and not has_bidi and s.endswith(tag[:-1]):
-                    fam.add(f'dollar-trailing-dollar:{name}',
-                            f'{name} delimits a text that ends in `$` (or in the chosen tag minus its last `$`) with a '
-                            f'tag that already closes inside the text: the real tokenizer reads a shorter string and '
-                            f'fails on the remainder', s, o, extra)
-                elif name == 'visit_Constant' and branch == 'repr' and \
-                        any(0x80 <= ord(c) <= 0xff and not py_printable(c) for c in s):
-                    fam.add('c1-repr-x-escape:visit_Constant',
-                            'visit_Constant prints a string holding a non-printable control through repr(): U+0080–U+00FF '
-                            'non-printables (C1 controls, NBSP, soft hyphen) come out as \\xNN, which the tokenizer '
-                            'only accepts for non-null ASCII', s, o, extra)
-                elif name in ('quote_literal', 'visit_Constant') and has_bidi and branch != 'repr':
-                    fam.add(f'bidi-raw:{name}',
-                            f'{name} leaves the bidirectional controls U+202A–202E / U+2066–2069 raw; the tokenizer '
-                            f'rejects them unescaped (the escaped form \\uXXXX is accepted)', s, o, extra)
-                else:
-                    ctx.fail(f'oracle:{name}:{sb.hex()}',
-                             f'{name}: the real tokenizer does not read the output back as one string token with the '
-                             f'original value', {'input_hex': sb.hex(), 'real_output': o, **extra})
+                viol(name, sb, f'{name}: the real tokenizer does not read the output back as one string token '
+                     f'with the original value', {'input_hex': sb.hex(), 'real_output': o, **extra})
             # --- identifier forms (default flags, and force=True)
             for i, name in ((4, 'quote_ident'), (5, 'quote_ident(force)')):
                 o = outs[i]
@@ -685,34 +665,19 @@ def run(ctx: core.Ctx):
                 r = rust_of.get(o)
                 extra = {'tokenizer_error': r.error if r else None,
                          'tokens': [(t.kind, t.value.decode('utf-8', 'replace')) for t in (r.toks if r else [])][:4]}
-                if o == s and not p_ok and b_ok and _py_ident_chars_not_rust(s, ralpha, ralnum):
-                    fam.add(f'ident-unicode-class:{name}',
-                            'quote_ident leaves a name unquoted because Python\'s regex classes \\w / [^\\W\\d] accept '
-                            'it, but it contains a character the tokenizer\'s is_alphabetic / is_alphanumeric does not '
-                            '(e.g. a non-decimal numeric such as U+00B2 in first position)', s, o, extra)
-                else:
-                    ctx.fail(f'oracle:{name}:{sb.hex()}',
-                             f'{name}: the real tokenizer does not read the output back as one identifier token with '
-                             f'the original value', {'input_hex': sb.hex(), 'real_output': o, **extra})
+                viol(name, sb, f'{name}: the real tokenizer does not read the output back as one identifier token '
+                     f'with the original value', {'input_hex': sb.hex(), 'real_output': o, **extra})
         for b, outs in zip(Bs, real_b):
             o = outs[0]
             n_oracle += 1
             if not (isinstance(o, str) and is_single_token(rust_of[o], b, 'bytes', len(o.encode()), bin_kind)):
                 r = rust_of.get(o)
-                if 0x5c in b:
-                    fam.add('bytes-backslash-unescaped:visit_BytesConstant',
-                            'visit_BytesConstant does not escape the backslash byte (the class of _BYTES_ESCAPE_RE is '
-                            'written in a non-raw literal, its `\\\\` escapes the quote instead of naming a backslash): '
-                            'the tokenizer reads the byte and what follows as an escape (value changed, or the '
-                            'closing quote is swallowed)', b, o,
-                            {'is_bytes': True, 'tokenizer_error': r.error if r else None,
-                             'value_read': r.toks[0].value.hex() if r and r.toks else None})
-                else:
-                    ctx.fail(f'oracle:visit_BytesConstant:{b.hex()}',
-                             'visit_BytesConstant: the real tokenizer does not read the output back as one bytes token '
-                             'with the original value',
-                             {'input_hex': b.hex(), 'is_bytes': True, 'real_output': o,
-                              'tokenizer_error': r.error if r else None})
+                viol('visit_BytesConstant', b,
+                     'visit_BytesConstant: the real tokenizer does not read the output back as one bytes token '
+                     'with the original value',
+                     {'input_hex': b.hex(), 'is_bytes': True, 'real_output': o,
+                      'tokenizer_error': r.error if r else None,
+                      'value_read': r.toks[0].value.hex() if r and r.toks else None})
         # --- outputs inside delimiter contexts: only where the bare output was fine
         for (kind, s, i, o, c) in ctx_items:
             if not isinstance(o, str) or o.startswith('!EXC'):
@@ -790,12 +755,16 @@ def run(ctx: core.Ctx):
 
     # ---- Unicode class compatibility, all code points (the hypotheses the unquoted-identifier theorem needs)
     ctx.log('SQL oracle done')
-    uni = unicode_sweep(ctx, fam, R)
+    uni = unicode_sweep(ctx, viol, R)
     ctx.log('unicode sweep done')
 
     for key, r in sorted(fam.f.items()):
         w = r['witness']
         ctx.fail(key, r['what'], {**w, 'failing_inputs_in_this_run': r['count']})
+    for name, lst in sorted(viols.items()):
+        lst.sort(key=lambda t: (t[0], t[1]))
+        for (_n, sb, what, detail) in lst[:20]:
+            ctx.fail(f'oracle:{name}:{sb.hex()}', what, {**detail, 'failing_inputs_of_this_function_in_this_run': len(lst)})
     if not proved:
         ctx.proof_broken_verdict()
 
@@ -838,9 +807,10 @@ def run(ctx: core.Ctx):
         'edb/pgsql/keywords.py, assumed equal to the server\'s',
         'strings are sequences of Unicode scalar values: lone surrogates (possible in a Python str, not encodable '
         'in UTF-8) are outside the model and the tests',
-        'Unicode tables (CPython str.isalnum/isdecimal/isprintable/lower, re \\w \\d; Rust is_alphabetic / '
+        'Unicode tables (CPython str.isalnum/isdecimal/isalpha/lower, re \\w \\d; Rust is_alphabetic / '
         'is_alphanumeric) are parameters of the models: the theorems hold for every table; the identifier theorem '
-        'has the class inclusion as an explicit guard, which the sweep checks against the real tables',
+        'has the inclusion of CPython\'s classes in the tokenizer\'s (Compat) as a hypothesis, which the sweep '
+        'checks against the real tables (every code point in the thorough tier)',
         'a string containing U+0000 is not expressible in any EdgeQL string literal nor in a PostgreSQL query; '
         'the oracle skips those (counted in the histogram)',
         'identifiers: a token of kind Ident, or a keyword that is not reserved, or __type__/__std__ (which '
@@ -856,69 +826,65 @@ def run(ctx: core.Ctx):
     ]
 
 
-def _py_ident_chars_not_rust(s, ralpha, ralnum) -> bool:
-    """True when s (left bare by quote_ident) is outside Rust's identifier
-    classes ONLY because of non-ASCII characters (the known Python-vs-Rust
-    Unicode table difference); an ASCII offender is never part of that family"""
-    ra, rn = set(ralpha), set(ralnum)
-    if not s:
-        return False
-    bad = []
-    if not (s[0] == '_' or (s[0].isascii() and s[0].isalpha()) or s[0] in ra):
-        bad.append(s[0])
-    bad += [c for c in s[1:] if not (c == '_' or (c.isascii() and c.isalnum()) or c in rn)]
-    return bool(bad) and all(not c.isascii() for c in bad)
-
-
-def unicode_sweep(ctx, fam: Families, R: Real) -> dict:
-    """All code points (surrogates excluded): the class inclusions the bare
-    identifier form relies on, evaluated on the real Python regexes and the real
-    tokenizer; and the facts about CPython the model hard-wires."""
+def unicode_sweep(ctx, viol, R: Real) -> dict:
+    """All code points (surrogates excluded).
+    (a) the hypothesis `Compat P U` of the identifier theorem on the real tables:
+        str.isalpha() ⊆ Rust is_alphabetic, re \\w ⊆ {_} ∪ Rust is_alphanumeric;
+    (b) the property itself on one- and two-character names: whatever quote_ident leaves
+        bare must be a single identifier token for the real tokenizer;
+    (c) the facts about CPython that Model/Quote hard-wires."""
     cps = [c for c in range(0x110000) if not 0xD800 <= c <= 0xDFFF]
     if ctx.quick():
         cps = [c for c in cps if c < 0x3400 or 0xA000 <= c < 0xAC00 or 0xF900 <= c < 0x12000 or
                0x1D000 <= c < 0x1F000 or c >= 0x10FF00 or c % 16 == ctx.seed % 16]
     chars = [chr(c) for c in cps]
-    re_start = R.q._re_ident
-    py_start = [bool(re_start.fullmatch(ch)) for ch in chars]
-    py_word = [bool(re_start.fullmatch('a' + ch)) for ch in chars]
     r1 = safe_lex_many(chars)
     r2 = safe_lex_many(['a' + ch for ch in chars])
-    n_bad_start = n_bad_word = n_model = 0
+    n_alpha = n_word = n_bare1 = n_bare2 = n_model = n_compat = 0
     w = re.compile(r'\w')
     d = re.compile(r'\d')
-    for ch, ps, pw, a, b in zip(chars, py_start, py_word, r1, r2):
+    qi = R.q.quote_ident
+    for ch, a, b in zip(chars, r1, r2):
         rust_start = bool(a.toks) and a.toks[0].text == ch and a.toks[0].kind != 'EOI' and \
             (a.toks[0].kind == 'Ident' or a.toks[0].kind.startswith('Keyword'))
         rust_word = bool(b.toks) and b.toks[0].text == 'a' + ch
-        if ps and not rust_start and ch != '_':
-            n_bad_start += 1
-            out = R.q.quote_ident(ch)
-            fam.add('ident-unicode-class:quote_ident',
-                    'quote_ident leaves a name unquoted because Python\'s regex classes \\w / [^\\W\\d] accept it, '
-                    'but it contains a character the tokenizer\'s is_alphabetic / is_alphanumeric does not '
-                    '(e.g. a non-decimal numeric such as U+00B2 in first position)', ch, out,
-                    {'tokenizer_error': a.error})
-        if pw and not rust_word:
-            n_bad_word += 1
-            out = R.q.quote_ident('a' + ch)
-            fam.add('ident-unicode-class:quote_ident',
-                    'quote_ident leaves a name unquoted because Python\'s regex classes \\w / [^\\W\\d] accept it, '
-                    'but it contains a character the tokenizer\'s is_alphabetic / is_alphanumeric does not '
-                    '(e.g. a non-decimal numeric such as U+00B2 in first position)', 'a' + ch, out,
-                    {'tokenizer_error': b.error})
-        # facts about CPython that Model/Quote hard-wires
-        okm = (bool(w.fullmatch(ch)) == (ch.isalnum() or ch == '_')) and (bool(d.fullmatch(ch)) == ch.isdecimal())
+        is_w = bool(w.fullmatch(ch))
+        n_alpha += ch.isalpha()
+        n_word += is_w
+        # (a)
+        if (ch.isalpha() and not rust_start) or (is_w and ch != '_' and not rust_word):
+            n_compat += 1
+            ctx.fail(f'corr:unicode-compat:{ord(ch):04x}',
+                     'hypothesis Compat of the identifier theorem fails on the real tables: a character CPython '
+                     'classifies as alphabetic / word is not is_alphabetic / is_alphanumeric for the tokenizer',
+                     {'code_point': ord(ch), 'isalpha': ch.isalpha(), 'word': is_w,
+                      'rust_alphabetic': rust_start, 'rust_alphanumeric': rust_word}, no_input=True)
+        # (b)
+        o1 = qi(ch)
+        if o1 == ch and ch != '@' and not rust_start:
+            n_bare1 += 1
+            viol('quote_ident', ch.encode(), 'quote_ident leaves a name bare that the real tokenizer does not read '
+                 'as an identifier', {'input_hex': ch.encode().hex(), 'real_output': o1, 'tokenizer_error': a.error})
+        o2 = qi('a' + ch)
+        if o2 == 'a' + ch and ch != ':' and not rust_word:
+            # ('a:' + ':' would be a '::' name; 'a:' itself is back-quoted)
+            n_bare2 += 1
+            viol('quote_ident', ('a' + ch).encode(), 'quote_ident leaves a name bare that the real tokenizer does '
+                 'not read as an identifier',
+                 {'input_hex': ('a' + ch).encode().hex(), 'real_output': o2, 'tokenizer_error': b.error})
+        # (c)
+        okm = (is_w == (ch.isalnum() or ch == '_')) and (bool(d.fullmatch(ch)) == ch.isdecimal())
         if ord(ch) < 128:
             okm = okm and ch.isalnum() == (ch in 'abcdefghijklmnopqrstuvwxyzABCDEFGHIJKLMNOPQRSTUVWXYZ0123456789') \
-                and ch.isdecimal() == (ch in '0123456789') and ch.isprintable() == (0x20 <= ord(ch) <= 0x7e) \
+                and ch.isalpha() == (ch in 'abcdefghijklmnopqrstuvwxyzABCDEFGHIJKLMNOPQRSTUVWXYZ') \
+                and ch.isdecimal() == (ch in '0123456789') \
                 and ch.lower() == (chr(ord(ch) + 32) if 'A' <= ch <= 'Z' else ch)
-        if ord(ch) in BIDI:
-            okm = okm and not ch.isprintable()
         if not okm:
             n_model += 1
             ctx.fail(f'corr:unicode-assumption:{ord(ch):04x}', 'a fact about CPython that Model/Quote hard-wires '
                      'does not hold', {'code_point': ord(ch)}, no_input=True)
-    return {'code_points': len(cps), 'python_ident_start': sum(py_start), 'python_word': sum(py_word),
-            'python_start_not_rust_alphabetic': n_bad_start, 'python_word_not_rust_alphanumeric': n_bad_word,
+    return {'code_points': len(cps), 'python_isalpha': n_alpha, 'python_word': n_word,
+            'compat_hypothesis_failures': n_compat,
+            'bare_single_char_names_rejected_by_tokenizer': n_bare1,
+            'bare_two_char_names_rejected_by_tokenizer': n_bare2,
             'model_assumption_failures': n_model}
